@@ -477,7 +477,52 @@ func (it *stringIter) next() tuple {
 	return okv
 }
 
-// symstrIter ranges over a string with symbolic bytes (ASCII only).
+// symDecodeRune decodes the first UTF-8 sequence of b (bytes may be symbolic):
+// ASCII first bytes by comparison, everything else through the real
+// unicode/utf8.DecodeRuneInString interpreted on the symbolic bytes (its
+// branches fork; the size it returns is concrete on every path).
+func symDecodeRune(b []value) (value, int) {
+	if cb, ok := b[0].(uint8); ok && cb < 0x80 {
+		return int32(cb), 1
+	}
+	if sb, ok := b[0].(sym); ok {
+		c := P.ctx
+		if P.branch(c.Ult(sb.t, c.BV(sb.t.W, 0x80))) {
+			return symConvScalar(types.Int32, sb), 1
+		}
+	}
+	n := len(b)
+	if n > 4 {
+		n = 4
+	}
+	pkg := W.interp.prog.ImportedPackage("unicode/utf8")
+	if pkg == nil || pkg.Func("DecodeRuneInString") == nil {
+		panic(pathEnd{"unsupported", "non-ASCII symbolic byte in a string, and unicode/utf8 is not loaded, at " + P.site()})
+	}
+	res := call(W.interp, nil, 0, pkg.Func("DecodeRuneInString"), []value{normStr(b[:n])}).(tuple)
+	size, ok := res[1].(int)
+	if !ok {
+		size = int(P.concretize(res[1].(sym), "rune size"))
+	}
+	return res[0], size
+}
+
+// symEncodeRune gives the UTF-8 encoding of a symbolic rune: one byte when it is
+// ASCII (fork), otherwise the bytes the real unicode/utf8.AppendRune produces.
+func symEncodeRune(r sym) []value {
+	c := P.ctx
+	if P.branch(c.Ult(r.t, c.BV(r.t.W, 0x80))) {
+		return []value{symConvScalar(types.Uint8, r)}
+	}
+	pkg := W.interp.prog.ImportedPackage("unicode/utf8")
+	if pkg == nil || pkg.Func("AppendRune") == nil {
+		panic(pathEnd{"unsupported", "non-ASCII symbolic rune, and unicode/utf8 is not loaded, at " + P.site()})
+	}
+	res := call(W.interp, nil, 0, pkg.Func("AppendRune"), []value{[]value(nil), value(r)})
+	return res.([]value)
+}
+
+// symstrIter ranges over a string with symbolic bytes.
 type symstrIter struct {
 	b []value
 	i int
@@ -487,18 +532,8 @@ func (it *symstrIter) next() tuple {
 	if it.i >= len(it.b) {
 		return tuple{false, nil, nil}
 	}
-	b := it.b[it.i]
-	asciiOnly(b, "byte in range over string")
-	var r value
-	if sb, ok := b.(sym); ok {
-		r = symConvScalar(types.Int32, sb)
-	} else {
-		if b.(uint8) >= 0x80 {
-			panic(pathEnd{"unsupported", "non-ASCII byte next to symbolic bytes in range over string"})
-		}
-		r = int32(b.(uint8))
-	}
+	r, size := symDecodeRune(it.b[it.i:])
 	t := tuple{true, it.i, r}
-	it.i++
+	it.i += size
 	return t
 }
